@@ -50,87 +50,8 @@ func runC05(c *Ctx) {
 	parallel(nWS, 14, func(i int) {
 		r := root.Fork(uint64(i))
 		sw := GenScopeWS(r, ScopeCfg{})
-		ws, srv, err := startScopeServer(c, sw, fmt.Sprintf("c05w%d", i))
-		if err != nil {
-			c.Inconclusive("server failed on a generated workspace (C01's business): " + err.Error())
-			return
-		}
-		defer ws.Remove()
-		defer srv.Close()
 		c.Eval(1)
-		for _, f := range sw.Files {
-			uri := ws.URI(f.Rel)
-			for _, o := range f.Bind.Occs {
-				if !queryable(o) {
-					continue
-				}
-				for _, end := range []bool{false, true} {
-					off := o.Tok.Off
-					if end {
-						off = o.Tok.End
-					}
-					p := posAt(f.Src, off)
-					locs, rerr, err := srv.Definition(uri, p.Line, p.Character)
-					if err != nil {
-						srv.WaitDeath(5 * time.Second)
-						c.Inconclusive(fmt.Sprintf("server stopped answering (C01's business): %v; witness %s; stderr: %s", err, c.CrashWitness(srv, sw.FileMap()), truncate(srv.StderrHead(400), 400)))
-						return
-					}
-					c.Count("definition_queries", 1)
-					name := o.Tok.Val
-					cls := lineFeatures(f.Src, o.Tok) + "|" + occClass(f, o)
-					witness := func() interface{} {
-						return map[string]interface{}{"files": sw.FileMap(), "file": f.Rel, "position": p, "name": name, "answer": fmtLocs(ws, locs)}
-					}
-					if rerr != nil {
-						c.Report("definition-error|"+cls, fmt.Sprintf("definition on %s at %s:%v returned error %s", name, f.Rel, p, rerr.Message), witness())
-						continue
-					}
-					if o.Decl != nil {
-						c.Distinct(f.Text + fmt.Sprint(o.Tok.Off, end))
-						c.Count("bound_local_checked", 1)
-						want := f.TokRange(o.Decl.Tok)
-						if len(locs) != 1 || locs[0].URI != uri || locs[0].Range != want {
-							c.Report(fmt.Sprintf("def-mismatch|%s", cls),
-								fmt.Sprintf("definition of %s (%s) at %s:%v should be its %s declaration at %v, got %s", name, cls, f.Rel, p, declKindName(o), want, fmtLocs(ws, locs)), witness())
-						}
-						continue
-					}
-					if luaBuiltins[name] {
-						c.Count("dont_care_builtin", 1)
-						continue
-					}
-					defs := sw.GlobalDefs[name]
-					if len(defs) == 0 {
-						c.Count("undefined_global_checked", 1)
-						c.Distinct(f.Text + fmt.Sprint(o.Tok.Off, end))
-						if len(locs) != 0 {
-							c.Report(fmt.Sprintf("def-mismatch|%s", cls),
-								fmt.Sprintf("%s is never defined anywhere but definition at %s:%v returns %s", name, f.Rel, p, fmtLocs(ws, locs)), witness())
-						}
-						continue
-					}
-					c.Count("global_checked", 1)
-					c.Distinct(f.Text + fmt.Sprint(o.Tok.Off, end))
-					bad := len(locs) == 0
-					for _, l := range locs {
-						ok := false
-						for _, d := range defs {
-							if l.URI == ws.URI(d.File.Rel) && l.Range == d.File.TokRange(d.Occ.Tok) {
-								ok = true
-							}
-						}
-						if !ok {
-							bad = true
-						}
-					}
-					if bad {
-						c.Report(fmt.Sprintf("def-mismatch|%s", cls),
-							fmt.Sprintf("global %s at %s:%v should resolve to one of its %d definition sites, got %s", name, f.Rel, p, len(defs), fmtLocs(ws, locs)), witness())
-					}
-				}
-			}
-		}
+		checkC05WS(c, sw, fmt.Sprintf("c05w%d", i))
 		if i < 2 {
 			c.Sample(map[string]interface{}{"files": sw.FileMap()})
 		}
@@ -138,4 +59,91 @@ func runC05(c *Ctx) {
 	c.Finish("generated 2-4 file workspaces (nested blocks/functions, all loop forms, shadowing and re-declaration, upvalues, local functions, "+
 		"repeat-until, method definitions, cross-file globals); textDocument/definition at both ends of every variable-name occurrence is "+
 		"compared with the reference binder. distinct_nontrivial = distinct (file text, occurrence, cursor edge) with a definite expectation", 300)
+}
+
+func init() { wsChecks["C05"] = checkC05WS }
+
+func checkC05WS(c *Ctx, sw *ScopeWS, tag string) {
+	i := 0
+	_ = i
+	ws, srv, err := startScopeServer(c, sw, tag)
+	if err != nil {
+		c.Inconclusive("server failed on a generated workspace (C01's business): " + err.Error())
+		return
+	}
+	defer ws.Remove()
+	defer srv.Close()
+	for _, f := range sw.Files {
+		uri := ws.URI(f.Rel)
+		for _, o := range f.Bind.Occs {
+			if !queryable(o) {
+				continue
+			}
+			for _, end := range []bool{false, true} {
+				off := o.Tok.Off
+				if end {
+					off = o.Tok.End
+				}
+				p := posAt(f.Src, off)
+				locs, rerr, err := srv.Definition(uri, p.Line, p.Character)
+				if err != nil {
+					srv.WaitDeath(5 * time.Second)
+					c.Inconclusive(fmt.Sprintf("server stopped answering (C01's business): %v; witness %s; stderr: %s", err, c.CrashWitness(srv, sw.FileMap()), truncate(srv.StderrHead(400), 400)))
+					return
+				}
+				c.Count("definition_queries", 1)
+				name := o.Tok.Val
+				cls := lineFeatures(f.Src, o.Tok) + "|" + occClass(f, o)
+				witness := func() interface{} {
+					return map[string]interface{}{"files": sw.FileMap(), "file": f.Rel, "position": p, "name": name, "answer": fmtLocs(ws, locs)}
+				}
+				if rerr != nil {
+					c.Report("definition-error|"+cls, fmt.Sprintf("definition on %s at %s:%v returned error %s", name, f.Rel, p, rerr.Message), witness())
+					continue
+				}
+				if o.Decl != nil {
+					c.Distinct(f.Text + fmt.Sprint(o.Tok.Off, end))
+					c.Count("bound_local_checked", 1)
+					want := f.TokRange(o.Decl.Tok)
+					if len(locs) != 1 || locs[0].URI != uri || locs[0].Range != want {
+						c.Report(fmt.Sprintf("def-mismatch|%s", cls),
+							fmt.Sprintf("definition of %s (%s) at %s:%v should be its %s declaration at %v, got %s", name, cls, f.Rel, p, declKindName(o), want, fmtLocs(ws, locs)), witness())
+					}
+					continue
+				}
+				if luaBuiltins[name] {
+					c.Count("dont_care_builtin", 1)
+					continue
+				}
+				defs := sw.GlobalDefs[name]
+				if len(defs) == 0 {
+					c.Count("undefined_global_checked", 1)
+					c.Distinct(f.Text + fmt.Sprint(o.Tok.Off, end))
+					if len(locs) != 0 {
+						c.Report(fmt.Sprintf("def-mismatch|%s", cls),
+							fmt.Sprintf("%s is never defined anywhere but definition at %s:%v returns %s", name, f.Rel, p, fmtLocs(ws, locs)), witness())
+					}
+					continue
+				}
+				c.Count("global_checked", 1)
+				c.Distinct(f.Text + fmt.Sprint(o.Tok.Off, end))
+				bad := len(locs) == 0
+				for _, l := range locs {
+					ok := false
+					for _, d := range defs {
+						if l.URI == ws.URI(d.File.Rel) && l.Range == d.File.TokRange(d.Occ.Tok) {
+							ok = true
+						}
+					}
+					if !ok {
+						bad = true
+					}
+				}
+				if bad {
+					c.Report(fmt.Sprintf("def-mismatch|%s", cls),
+						fmt.Sprintf("global %s at %s:%v should resolve to one of its %d definition sites, got %s", name, f.Rel, p, len(defs), fmtLocs(ws, locs)), witness())
+				}
+			}
+		}
+	}
 }
